@@ -19,6 +19,7 @@ import (
 	"verifsim/core"
 	"verifsim/kernel"
 
+	_ "verifsim/agentsim"
 	_ "verifsim/graphsim"
 	_ "verifsim/streamsim"
 )
